@@ -149,7 +149,8 @@ func (fc *FnCtx) utilMap(ins ssa.Instruction, callee *ssa.Function, cc *ssa.Call
 	g := fc.g
 	name := callee.String()
 	const pfx = "(*github.com/zilliztech/milvus-cdc/core/util.Map["
-	if !strings.HasPrefix(name, pfx) {
+	const pfx2 = "(*github.com/milvus-io/milvus/pkg/util/typeutil.ConcurrentMap["
+	if !strings.HasPrefix(name, pfx) && !strings.HasPrefix(name, pfx2) {
 		return false
 	}
 	recvT := callee.Signature.Recv().Type().(*types.Pointer).Elem().(*types.Named)
@@ -164,11 +165,22 @@ func (fc *FnCtx) utilMap(ins ssa.Instruction, callee *ssa.Function, cc *ssa.Call
 	if i := strings.Index(method, "["); i >= 0 {
 		method = method[:i]
 	}
-	g.trusted["built-in model: core/util.Map[K,V] (typed sync.Map wrapper) is a map attached to the Map object: Load/Store/LoadWithDefault/Delete/Range"] = true
+	g.trusted["built-in model: core/util.Map[K,V] and typeutil.ConcurrentMap[K,V] (typed sync.Map wrappers) are maps attached to the map object: Load/Get, Store/Insert, LoadWithDefault, Delete/Remove, GetAndRemove, Contain, Range"] = true
 	dom := func() string { return fmt.Sprintf("(select %s %s)", g.get(fc.cur, kd), m) }
 	val := func() string { return fmt.Sprintf("(select %s %s)", g.get(fc.cur, kv), m) }
 	switch method {
-	case "Load":
+	case "Contain":
+		ok := g.def(fc.prefix+"um.ok", "Bool", fmt.Sprintf("(select %s %s)", dom(), args[1].t))
+		setResult([]Val{{t: ok, ty: tBool}})
+	case "GetAndRemove":
+		ok := g.def(fc.prefix+"um.ok", "Bool", fmt.Sprintf("(select %s %s)", dom(), args[1].t))
+		v := g.def(fc.prefix+"um.v", g.sortOf(V), fmt.Sprintf("(ite %s (select %s %s) %s)", ok, val(), args[1].t, g.sorts.zero(V)))
+		if rc := g.sorts.rangeConstraint(V, v); rc != "" {
+			fc.assume(rc, "range")
+		}
+		g.set(fc.cur, kd, fmt.Sprintf("(store %s %s (store %s %s false))", g.get(fc.cur, kd), m, dom(), args[1].t))
+		setResult([]Val{{t: v, ty: V}, {t: ok, ty: tBool}})
+	case "Load", "Get":
 		ok := g.def(fc.prefix+"um.ok", "Bool", fmt.Sprintf("(select %s %s)", dom(), args[1].t))
 		v := g.def(fc.prefix+"um.v", g.sortOf(V), fmt.Sprintf("(ite %s (select %s %s) %s)", ok, val(), args[1].t, g.sorts.zero(V)))
 		if rc := g.sorts.rangeConstraint(V, v); rc != "" {
@@ -181,11 +193,11 @@ func (fc *FnCtx) utilMap(ins ssa.Instruction, callee *ssa.Function, cc *ssa.Call
 			fc.assume(rc, "range")
 		}
 		setResult([]Val{{t: v, ty: V}})
-	case "Store":
+	case "Store", "Insert":
 		g.set(fc.cur, kd, fmt.Sprintf("(store %s %s (store %s %s true))", g.get(fc.cur, kd), m, dom(), args[1].t))
 		g.set(fc.cur, kv, fmt.Sprintf("(store %s %s (store %s %s %s))", g.get(fc.cur, kv), m, val(), args[1].t, args[2].t))
 		setResult(nil)
-	case "Delete":
+	case "Delete", "Remove":
 		g.set(fc.cur, kd, fmt.Sprintf("(store %s %s (store %s %s false))", g.get(fc.cur, kd), m, dom(), args[1].t))
 		setResult(nil)
 	case "Range":
@@ -285,12 +297,69 @@ func (g *Gen) loopModsMark(id, k string) {
 	g.loopMods[id][k] = true
 }
 
+// atomicModel: go.uber.org/atomic and sync/atomic integer/bool boxes as a ghost value attached to the box
+// (sequentially consistent single-goroutine view; other goroutines may change it at synchronisation points).
+func (fc *FnCtx) atomicModel(ins ssa.Instruction, callee *ssa.Function, args []Val, setResult func([]Val)) bool {
+	g := fc.g
+	name := callee.String()
+	var box string
+	for _, p := range []string{"(*go.uber.org/atomic.Int32).", "(*go.uber.org/atomic.Int64).", "(*sync/atomic.Int32).", "(*sync/atomic.Int64)."} {
+		if strings.HasPrefix(name, p) {
+			box = p
+		}
+	}
+	if box == "" {
+		return false
+	}
+	key := "G|$atomicInt"
+	g.regKey(key, "(Array Int Int)", "umap")
+	g.trusted["built-in model: atomic.Int32/Int64 boxes (Load/Store/Inc/Dec/Add) as a ghost integer attached to the box"] = true
+	o := args[0].t
+	cur := fmt.Sprintf("(select %s %s)", g.get(fc.cur, key), o)
+	rt := tInt
+	if callee.Signature.Results().Len() == 1 {
+		rt = callee.Signature.Results().At(0).Type().(*types.Basic)
+	}
+	upd := func(nv string) {
+		w := wrapInt(rt, nv)
+		n := g.def(fc.prefix+"atomic", "Int", w)
+		g.set(fc.cur, key, fmt.Sprintf("(store %s %s %s)", g.get(fc.cur, key), o, n))
+		if callee.Signature.Results().Len() == 1 {
+			setResult([]Val{{t: n, ty: rt}})
+		} else {
+			setResult(nil)
+		}
+	}
+	switch strings.TrimPrefix(name, box) {
+	case "Load":
+		n := g.def(fc.prefix+"atomic", "Int", cur)
+		setResult([]Val{{t: n, ty: rt}})
+	case "Inc":
+		upd(fmt.Sprintf("(+ %s 1)", cur))
+	case "Dec":
+		upd(fmt.Sprintf("(- %s 1)", cur))
+	case "Add":
+		upd(fmt.Sprintf("(+ %s %s)", cur, args[1].t))
+	case "Sub":
+		upd(fmt.Sprintf("(- %s %s)", cur, args[1].t))
+	case "Store":
+		g.set(fc.cur, key, fmt.Sprintf("(store %s %s %s)", g.get(fc.cur, key), o, args[1].t))
+		setResult(nil)
+	default:
+		return false
+	}
+	return true
+}
+
 func (fc *FnCtx) specialHigher(ins ssa.Instruction, callee *ssa.Function, cc *ssa.CallCommon, args []Val, setResult func([]Val)) bool {
 	switch callee.String() {
 	case "github.com/milvus-io/milvus/pkg/util/retry.Do":
 		return fc.retryDo(ins, cc, setResult)
 	case "(*sync.Once).Do":
 		return fc.onceDo(ins, cc, setResult)
+	}
+	if fc.atomicModel(ins, callee, args, setResult) {
+		return true
 	}
 	return fc.utilMap(ins, callee, cc, args, setResult)
 }
